@@ -15,7 +15,7 @@
 (* sharing directory extents): each must FAIL, which shows the clauses have  *)
 (* bite at the design level (vacuity guard, checked by tools/props/c08.py).  *)
 (***************************************************************************)
-EXTENDS IsoLayout, TLC
+EXTENDS IsoLayout, TLC, Json
 
 CONSTANTS MaxFiles, SizeSet, Wide
 
@@ -72,6 +72,12 @@ Content == c.k = "case" => FailedContent(Vol, TreeOf(c.D)) = {}
 
 (* reconstruction (IsoLayout!DFromVolume) inverts the layout: what is compared with real images is well defined *)
 SelfConforms == c.k = "case" => LayoutVerdict(Vol) = "same"
+
+(* model -> code: every case as a tree for the real generator (GEN_IsoLayout.cfg, -workers 1) *)
+EmitTree ==
+  (c.k = "case" /\ ~c.ps3) =>
+    PrintT(<<"TREE", ToJson([k \in DOMAIN c.D |-> [path |-> c.D[k].path,
+                                                    files |-> [i \in DOMAIN c.D[k].files |-> [name |-> c.D[k].files[i].name, size |-> c.D[k].files[i].size]]]])>>)
 
 (* exercised, not only satisfied: cases with a multi-extent file, and with a record pushed to the next sector, *)
 (* must exist (MC_IsoLayoutVacuity.cfg claims they do not and has to fail)                                     *)
